@@ -16,8 +16,8 @@ for d in sorted(glob.glob('/verif/seeded/C*-*')):
                 f"{c['demo_exit_with_change']}/{c['demo_exit_on_clean_tree']} | {det or '-'} | {miss or '-'} |")
 open('/verif/seeded/SUMMARY.md', 'w').write("""# Independently seeded changes
 
-Seeds -1/-2 are the first round, -3/-4 the second round (the second-round seeders were told which change ideas had already
-been used).  Each directory holds `patch.diff` (applies to /repo at the commit in `meta.json`; `patch.orig.diff` = the
+Seeds -1/-2 are the first round, -3/-4 the second, ... -13/-14 the seventh (from the second round on the seeders were told
+which change ideas had already been used; DESIGN.md section 12.2 lists every first-run miss and what was strengthened).  Each directory holds `patch.diff` (applies to /repo at the commit in `meta.json`; `patch.orig.diff` = the
 seeder's own diff when it had to be ported after a later repair of /repo), `demo.py` (exit 1 = property violated;
 `demo.orig.py` = the seeder's own when it had to be adapted), `notes.txt` (the seeder's notes), `idea.txt`, `eval.txt`
 (output of `tools/eval_seed.sh`) and `meta.json`.  "demo a/b" = exit code with the change / on the clean tree.  All runs
@@ -26,4 +26,5 @@ are the quick tier with seed 1 against a patched scratch copy of /repo.
 | Seed | Change | Needs in order to manifest | Confirmed | Detected by (time, first signature) | Other checks run, not detecting |
 |---|---|---|---|---|---|
 """ + '\n'.join(rows) + '\n')
+nd = sum(1 for r in rows if '| - | ' in r.split(' | ', 4)[-1][:6])
 print(len(rows), 'seeds')
